@@ -358,6 +358,8 @@ WiringPortRef wire_node(Scope &sc, const JV &st, std::vector<WiringPortRef> ins)
     if (st.bool_or("uniq", true)) key += "#" + std::to_string(next_uid());
     NodeBuilder nb = NodeBuilder::native(m, cb);
     nb.label(cfg->label);
+    // exactly what wire<T> does for a static node: the input endpoint follows the shape of the sources
+    if (!ins.empty()) nb.input_endpoint(graph_wiring_detail::input_endpoint_for_sources(m.input_schema, std::span<const WiringPortRef>{ins.data(), ins.size()}));
     return sc.w->add_node(std::type_index(typeid(DefNode)), std::move(nb), std::span<const WiringPortRef>{ins.data(), ins.size()}, Value{Str{key}});
 }
 
